@@ -58,6 +58,13 @@ def waiter_claims(p, h, w, others_done=True):
         lb = [e for e in loads if e[2] == 'bytes']
         out.append(Claim('%s resumed only after reading both counts below their limits' % w.name,
                          z3.And(lm[-1][3] < h['mm'], lb[-1][3] < h['mb']) if lm and lb else False))
+        # ... in one check: the two readings are not separated by a wait (a reading taken before parking says nothing
+        # about the moment of resumption)
+        if lm and lb:
+            im, ib = p.log.index(lm[-1]), p.log.index(lb[-1])
+            lo, hi = min(im, ib), max(im, ib)
+            waited = any(e[0] == 'op' and e[1] == w.name and str(e[2]).startswith('Notified::poll') for e in p.log[lo:hi])
+            out.append(Claim('%s: the two readings it resumed on belong to one check (no wait between them)' % w.name, not waited))
     elif w.state == 'parked':
         out.append(Claim('%s is not left parked while both counts are below their limits (no wake-up is pending)' % w.name,
                          z3.Not(space(h))))
